@@ -5,7 +5,7 @@
    steps return the state they were given, whatever the state and the arguments, and outside its
    contract every operation raises exactly the documented exception. *)
 From Coq Require Import List Arith NArith ZArith Bool String.
-From CelloV Require Import RBTree RBProofs RBRefine IterModel IterSource IterProofs StringModel StringProofs Generated RobinHood TableModel TableProofs ErrorsModel ErrorsProofs SeqModels SeqProofs SeqTupleProofs SeqErrorProofs SeqTheorems.
+From CelloV Require Import RBTree RBProofs RBRefine IterModel IterSource IterProofs StringModel StringProofs Generated RobinHood TableModel TableProofs ErrorsModel ErrorsProofs ErrorsGlue SeqModels SeqProofs SeqTupleProofs SeqErrorProofs SeqTheorems.
 Import ListNotations.
 
 (* Array, List, Tuple: a raising step changes nothing — any state, any operation, any argument *)
@@ -155,3 +155,39 @@ Theorem contract_names_documented_exceptions :
   forallb (fun r => match snd r with [] => false | es => forallb documented_exn es end) contract = true.
 Proof. vm_compute. reflexivity. Qed.
 Print Assumptions contract_names_documented_exceptions.
+
+(* C12 meets C07 (ErrorsGlue.v): programs of guarded operations and try/catch blocks, run on the exception MACHINE
+   of Exn.v (the macro expansion over struct Exception, constants taken from the source).  From a fresh thread and
+   for every program within the nesting bound: the operations that took effect are exactly those the direct reading
+   [crun] performs, the block depth is back to 0, and the run ends normally unless an exception nobody accepts is
+   left — then the thread dies with exactly that object. *)
+Theorem failed_operation_under_try_catch_on_the_machine : forall (S : Type) (p : ErrorsGlue.cprog S) (s : S),
+  ErrorsGlue.cnesting S p <= exc_max_depth ->
+  let '(tr, r, st') := ExnProofs.mach (ErrorsGlue.compile S p s) Exn.st_init in
+  ErrorsGlue.ticks tr = ErrorsGlue.cdone S p s /\ Exn.depth st' = 0 /\
+  r = match snd (ErrorsGlue.crun S p s) with None => Exn.MNormal | Some e => Exn.MDied (Some e) 1 end.
+Proof. exact ErrorsGlue.machine_runs_compiled. Qed.
+Print Assumptions failed_operation_under_try_catch_on_the_machine.
+
+(* ... and the handler that accepts the exception of a failed operation continues from exactly the state in which
+   the operation was attempted (everything the body did before it is kept, the failed operation left no trace) *)
+Theorem handler_continues_from_the_state_of_the_failed_attempt :
+  forall (S : Type) (pre : ErrorsGlue.cprog S) n (o : gop S nat) fs h s e,
+  snd (ErrorsGlue.crun S pre s) = None ->
+  first_failure S nat (guards S nat o) (fst (ErrorsGlue.crun S pre s)) = Some e ->
+  Exn.matches fs e = true ->
+  ErrorsGlue.crun S (ErrorsGlue.CTry S (ErrorsGlue.CSeq S pre (ErrorsGlue.COp S n o)) fs h) s
+  = ErrorsGlue.crun S h (fst (ErrorsGlue.crun S pre s)).
+Proof.
+  exact (fun S pre n o fs h s e Hp He Hm => ErrorsGlue.handler_sees_pre_state S pre n o fs h s Hp e He Hm).
+Qed.
+Print Assumptions handler_continues_from_the_state_of_the_failed_attempt.
+
+(* non-vacuity: a counter that refuses to go below 0; the second decrement fails inside try, the handler increments *)
+Example failed_operation_under_try_catch_nonvacuous :
+  let dec := mkG nat nat [fun s => if s =? 0 then Some 30 else None] pred in
+  let inc := mkG nat nat [] Datatypes.S in
+  let p := ErrorsGlue.CTry nat (ErrorsGlue.CSeq nat (ErrorsGlue.COp nat 1 dec) (ErrorsGlue.COp nat 2 dec)) [31] (ErrorsGlue.COp nat 3 inc) in
+  ErrorsGlue.crun nat p 1 = (1, None) /\ ErrorsGlue.cdone nat p 1 = [1; 3] /\
+  fst (ExnProofs.mach (ErrorsGlue.compile nat p 1) Exn.st_init) = ([Exn.ETick 1 1; Exn.EHandler 30 1 0; Exn.ETick 3 0], Exn.MNormal).
+Proof. vm_compute. repeat split. Qed.
